@@ -257,3 +257,84 @@ func VerifC11_ForcedResubscribe() {
 	}
 	verifrt.Reached("end")
 }
+
+// After a refresh of the topics (snapshot restore) with several subscribers on one subject: the old
+// subscribers unsubscribe and resubscribe in any order; whoever holds a subscription made after the
+// refresh is not left behind by a late unsubscribe of an old one: it receives every commit made afterwards.
+func VerifC11_ResubscribeAfterRefresh() {
+	topic := StringTopic("t")
+	store := &vStore{}
+	pub := NewEventPublisher(10 * time.Second)
+	pub.RegisterHandler(topic, func(req SubscribeRequest, buf SnapshotAppender) (uint64, error) {
+		cur := store.current()
+		if cur.idx != 0 {
+			buf.Append([]Event{{Topic: topic, Index: cur.idx, Payload: vPayload{cur.val}}})
+		}
+		return cur.idx, nil
+	}, false)
+	nextIdx := uint64(10)
+	commit := func() {
+		nextIdx++
+		v := vVersion{nextIdx, nextIdx * 7}
+		store.versions = append(store.versions, v)
+		pub.Publish([]Event{{Topic: topic, Index: v.idx, Payload: vPayload{v.val}}})
+		for pub.VerifDrainOne() {
+		}
+	}
+	subscribe := func() *Subscription {
+		s, err := pub.Subscribe(&SubscribeRequest{Topic: topic, Subject: StringSubject("k"), Token: "tok"})
+		verifrt.Assert("C11.refresh.subscribe-no-error", err == nil)
+		return s
+	}
+	if verifrt.Bool("commit-before") {
+		commit()
+	}
+	old := []*Subscription{subscribe(), subscribe()}
+	if verifrt.Bool("commit-between") {
+		commit()
+	}
+	pub.RefreshAllTopics()
+	var fresh []*Subscription
+	for step := 0; step < 4; step++ {
+		switch verifrt.Choice("step", 4) {
+		case 0: // an old subscriber (force-closed by the refresh) goes away
+			if len(old) == 0 {
+				verifrt.Assume(false)
+			}
+			k := verifrt.Choice("which-old", len(old))
+			old[k].Unsubscribe()
+			old = append(old[:k:k], old[k+1:]...)
+		case 1: // somebody subscribes again
+			if len(fresh) >= 2 {
+				verifrt.Assume(false)
+			}
+			fresh = append(fresh, subscribe())
+		case 2:
+			commit()
+		case 3: // nothing
+		}
+	}
+	if len(fresh) == 0 {
+		verifrt.Assume(false)
+	}
+	// a final commit must reach every subscription made after the refresh
+	commit()
+	final := store.current()
+	for i, s := range fresh {
+		v := &vView{sub: s}
+		seen := false
+		for n := 0; n < 8 && v.ready(); n++ {
+			ev, err := s.Next(context.Background())
+			verifrt.Assert("C11.refresh.fresh-subscriber-reads-without-error", err == nil)
+			if err != nil {
+				break
+			}
+			if ev.Index == final.idx {
+				seen = true
+			}
+		}
+		_ = i
+		verifrt.Assert("C11.refresh.fresh-subscriber-receives-every-later-commit", seen)
+	}
+	verifrt.Reached("end")
+}
